@@ -9,12 +9,12 @@ PROPERTY = 'C12'
 FUNCTIONS = ['emd.cycles.get_cycle_vector', 'emd.cycles.is_good', 'emd.support.ensure_2d', 'emd.utils.wrap_phase (entry guard)']
 BOUNDS = {
     'quick': 'N <= 6 symbolic real phases in [0,2pi) per column (ties allowed), 1 column for N<=6 and 2 columns for N=3; '
-             'phase_step symbolic in (0,2pi); all-cycles and good-cycles modes; no mask',
+             'phase_step symbolic in (0,2pi); all-cycles and good-cycles modes; no mask, or an all-True mask vector shared by the columns',
     'thorough': 'N <= 8 (1 column), N <= 4 (2 columns); phase_step symbolic in (0,2pi); both modes',
 }
 OUTSIDE = 'longer series, float rounding of the phase differences, masks (C13)'
 ASSUMPTIONS = ['input phases are already wrapped into [0,2pi) (the property quantifies over wrapped phase)']
-REQUIRED_CLASSES = ['has-wrap', 'no-wrap', 'wrap-at-last-sample', 'wrap-at-first-sample']
+REQUIRED_CLASSES = ['has-wrap', 'no-wrap', 'wrap-at-last-sample', 'wrap-at-first-sample', 'all-true-mask']
 EXPECTED_LABELS = ['never-raises', 'labels-consecutive-contiguous', 'no-internal-wrap', 'runs-delimited-by-wraps',
                    'all-samples-covered', 'wrap-free-gives-no-cycles', 'shape']
 BUDGET_S = {'quick': 120, 'thorough': 900}
@@ -29,6 +29,9 @@ def configs(tier):
             for good in (False, True):
                 out.append(("N%d-%s-1col" % (n, 'good' if good else 'all'), {'N': n, 'good': good, 'ncol': 1}))
         out.append(("N3-all-2col", {'N': 3, 'good': False, 'ncol': 2}))
+        # a validity mask that masks nothing (one vector shared by all columns) changes nothing
+        out.append(("N3-all-2col-truemask", {'N': 3, 'good': False, 'ncol': 2, 'mask': True}))
+        out.append(("N4-good-1col-truemask", {'N': 4, 'good': True, 'ncol': 1, 'mask': True}))
     else:
         for n in (2, 3, 4, 5, 6, 7, 8):
             for good in (False, True):
@@ -36,6 +39,7 @@ def configs(tier):
         for n in (3, 4):
             for good in (False, True):
                 out.append(("N%d-%s-2col" % (n, 'good' if good else 'all'), {'N': n, 'good': good, 'ncol': 2}))
+                out.append(("N%d-%s-2col-truemask" % (n, 'good' if good else 'all'), {'N': n, 'good': good, 'ncol': 2, 'mask': True}))
     return out
 
 
@@ -48,7 +52,11 @@ def harness(h):
     else:
         phase = np.stack(cols, axis=1)
     try:
-        cv = emd.cycles.get_cycle_vector(phase, return_good=good, phase_step=step)
+        if h.params.get('mask'):
+            h.note('all-true-mask')
+            cv = emd.cycles.get_cycle_vector(phase, return_good=good, phase_step=step, mask=np.ones(N, dtype=bool))
+        else:
+            cv = emd.cycles.get_cycle_vector(phase, return_good=good, phase_step=step)
     except Exception as e:
         h.fail('never-raises', "%s: %s" % (type(e).__name__, e))
         return
